@@ -104,6 +104,7 @@ def execPipe (w : PipeWorld) (op : String) (a : List String) : PipeWorld × Stri
     | _, _ => (w, "bad-op")
   | "end" => (w, "ok")
   | "branches" => (w, "skip")
+  | "rawd" => (w, "skip")          -- hostile-input stream: oracles only (no panic, bounded allocation)
   | "raw" =>
     let i := parseNat (kvGet m "p")
     match w.proxies[i]? with
